@@ -41,6 +41,22 @@ pub fn file_ev(log: &mut Log, bytes: &[u8], items: &[Kv], ty: u64, nodes: i64, o
 pub fn c09(log: &mut Log, seed: u64, tier: &str) {
     let mut r = rng(seed, 9);
     let ins = inputs(&mut r, tier, true);
+    // "any builder": also one that streams into a sink accepting prefixes and interrupting
+    {
+        use crate::scen_sink::{build_through, Policy};
+        for (i, (name, keys)) in ins.iter().filter(|(_, k)| k.len() <= 200).take(if thorough(tier) { 90 } else { 30 }).enumerate() {
+            let items = assign(keys.clone(), *pick(&mut r, VAL_MODES), &mut r);
+            let policies = [Policy::Cap(1 + i % 5), Policy::Random { short: 50, intr: 10 }, Policy::IntrAt(i % 9)];
+            let policy = policies[i % policies.len()].clone();
+            let what = format!("{} through {:?}", name, policy);
+            let set = i % 4 == 3;
+            let items: Vec<Kv> = if set { items.into_iter().map(|(k, _)| (k, 0)).collect() } else { items };
+            match build_through(&items, set, policy, seed + i as u64) {
+                Ok(bytes) => file_ev(log, &bytes, &items, 0, -1, &what),
+                Err(e) => log.ev(json!({"ev": "Panic", "in": "build_through", "msg": e, "origin": what})),
+            }
+        }
+    }
     for (name, keys) in ins {
         let big = keys.len() > 2000;
         if big && name != "words-10000" && !thorough(tier) {
@@ -160,6 +176,11 @@ fn jopen<T>(r: &Result<T, fst::Error>) -> Value {
 
 /// One arbitrary byte string through Fst::new, the accessors and verify().
 pub fn raw_ev(log: &mut Log, bytes: &[u8], origin: &str, via: &str) {
+    raw_ev_from(log, bytes, origin, via, None)
+}
+
+/// ... `base`: the valid image that `map_data` starts from (default: a one-key map).
+pub fn raw_ev_from(log: &mut Log, bytes: &[u8], origin: &str, via: &str, base: Option<&[u8]>) {
     let r = guard(|| -> (Value, Value) {
         macro_rules! probe {
             ($fst:expr) => {{
@@ -178,10 +199,13 @@ pub fn raw_ev(log: &mut Log, bytes: &[u8], origin: &str, via: &str) {
             "arc" => probe!(Fst::new(std::sync::Arc::<[u8]>::from(bytes))),
             // the bytes arrive through map_data of a valid FST: still an opening of *these* bytes
             "map_data" | "map_data_map" | "map_data_set" => {
-                let valid = {
-                    let mut b = Builder::memory();
-                    b.insert(b"k", 7).unwrap();
-                    b.into_inner().unwrap()
+                let valid = match base {
+                    Some(v) => v.to_vec(),
+                    None => {
+                        let mut b = Builder::memory();
+                        b.insert(b"k", 7).unwrap();
+                        b.into_inner().unwrap()
+                    }
                 };
                 match via {
                     "map_data" => probe!(Fst::new(valid).unwrap().map_data(|_| bytes.to_vec())),
@@ -313,6 +337,17 @@ pub fn c20(log: &mut Log, seed: u64, tier: &str) {
                 b[..8].copy_from_slice(&le8(*pick(&mut r, &[1u64, 2, 3])));
             }
             raw_ev(log, &b, "short", via);
+        }
+    }
+    // every total length in a range under a version-3 header with a plausible root address: the
+    // checksum routine sees every length modulo its block sizes
+    for len in 36..=(if thorough(tier) { 1100usize } else { 330 }) {
+        let mut b: Vec<u8> = (0..len).map(|_| r.gen()).collect();
+        b[..8].copy_from_slice(&le8(3));
+        b[len - 12..len - 4].copy_from_slice(&le8(17));
+        raw_ev(log, &b, "length-sweep", VIAS[len % VIAS.len()]);
+        if len % 3 == 0 && rechecksum(&mut b) {
+            raw_ev(log, &b, "length-sweep-rechecksummed", VIAS[(len / 3) % VIAS.len()]);
         }
     }
     // every truncation and single-byte mutations of valid FSTs
@@ -483,6 +518,7 @@ pub fn c08(log: &mut Log, seed: u64, tier: &str) {
     }
     // (3) corruption is never certified: every position of small FSTs x replacement values, bursts
     let nf = if thorough(tier) { 16 } else { 5 };
+    let mut nraw = 0usize;
     for (bytes, _items) in valid_small_fsts(&mut r, nf) {
         if bytes.len() > 160 {
             continue;
@@ -495,7 +531,8 @@ pub fn c08(log: &mut Log, seed: u64, tier: &str) {
                 }
                 let mut m = bytes.clone();
                 m[pos] = v;
-                raw_ev(log, &m, "corrupt1", "slice");
+                nraw += 1;
+                raw_ev_from(log, &m, "corrupt1", VIAS[nraw % VIAS.len()], Some(&bytes));
             }
             // bursts of up to 4 bytes
             for blen in 2..=4 {
@@ -504,7 +541,8 @@ pub fn c08(log: &mut Log, seed: u64, tier: &str) {
                     for j in 0..blen {
                         m[pos + j] ^= r.gen_range(1, 256) as u8;
                     }
-                    raw_ev(log, &m, "burst", "slice");
+                    nraw += 1;
+                    raw_ev_from(log, &m, "burst", VIAS[nraw % VIAS.len()], Some(&bytes));
                 }
             }
         }
